@@ -14,6 +14,20 @@ def ev_call(E, n, st, out):
     f = n.func
     # logger.xxx(...) : dropped (DESIGN 2.1), arguments not evaluated
     if isinstance(f, ast.Attribute) and isinstance(f.value, ast.Name) and f.value.id == "logger" and f.attr in LOGGER_METHODS:
+        if getattr(E.cur, "anyraise", False):
+            # exception-complete (typestate) contracts: the logger call itself is dropped, but its ARGUMENT expressions are
+            # evaluated - `logger.debug("...".format(f.tell()))` can raise like any other call
+            cur = [st]
+            try:
+                for a_ in list(n.args) + [k_.value for k_ in n.keywords]:
+                    nxt = []
+                    for s1 in cur:
+                        nxt += [s2 for s2, _v in E.ev(a_, s1, out)]
+                    cur = nxt
+                return [(s1, VNone()) for s1 in cur]
+            except OutOfSubset:
+                E.may_raise_any(st, out, n, "logger argument")
+                return [(st, VNone())]
         return [(st, VNone())]
     # super(C, self).m(...)
     if (isinstance(f, ast.Attribute) and isinstance(f.value, ast.Call)
